@@ -204,25 +204,25 @@ theorem code_matches_model :
       "defer u.clientsMu.Unlock()",
       "u.removeClientLocked(addr)"] ∧
     Gen.Upstream.makeRequestToHost =
-      ["u.stats.RqTotal.Inc()",
-      "req.RegisterHook(func(req *simpleRequest) { if req.Response().Type == Error { u.stats.RqFailureTotal.Inc() } else { u.stats.RqSuccessTotal.Inc() } u.stats.RqDurationMs.Record(uint64(req.Duration() / time.Millisecond)) })",
-      "select { case <-u.quit: req.SetResponse(newError(upstreamExited)) return default: }",
+      ["for _, req := range reqs { u.stats.RqTotal.Inc() req.RegisterHook(func(req *simpleRequest) { if req.Response().Type == Error { u.stats.RqFailureTotal.Inc() } else { u.stats.RqSuccessTotal.Inc() } u.stats.RqDurationMs.Record(uint64(req.Duration() / time.Millisecond)) }) }",
+      "fail := func(msg string) { for _, req := range reqs { req.SetResponse(newError(msg)) } }",
+      "select { case <-u.quit: fail(upstreamExited) return default: }",
       "verifPause(\"upstream.request.checked\", u)",
       "c, err := u.getClient(addr)",
-      "if err != nil { u.triggerSlotsRefresh() req.SetResponse(newError(err.Error())) return }",
-      "c.Send(req)"] ∧
+      "if err != nil { u.triggerSlotsRefresh() fail(err.Error()) return }",
+      "c.Send(reqs...)"] ∧
     Gen.Upstream.handleResp =
       ["if v.Type != Error { req.SetResponse(v) return }",
       "i := bytes.Index(v.Text, []byte(\" \"))",
       "var errPrefix []byte",
       "if i != -1 { errPrefix = v.Text[:i] }",
-      "switch { case bytes.EqualFold(errPrefix, []byte(MOVED)), bytes.EqualFold(errPrefix, []byte(ASK)): if c.onRedirection != nil { c.onRedirection(req, v) return } case bytes.EqualFold(errPrefix, []byte(CLUSTERDOWN)): if c.onClusterDown != nil { c.onClusterDown(req, v) return } }",
+      "switch { case bytes.EqualFold(errPrefix, []byte(MOVED)), bytes.EqualFold(errPrefix, []byte(ASK)): if c.onRedirection != nil { req.abort = c.quit c.onRedirection(req, v) return } case bytes.EqualFold(errPrefix, []byte(CLUSTERDOWN)): if c.onClusterDown != nil { c.onClusterDown(req, v) return } }",
       "req.SetResponse(v)"] ∧
     Gen.Upstream.handleRedirection =
       ["err := strings.Split(string(resp.Text), \" \")",
       "if len(err) < 3 { req.SetResponse(resp) return }",
       "hostAddr := err[2]",
-      "switch strings.ToLower(err[0]) { case MOVED: u.stats.Counter(\"moved\").Inc() u.MakeRequestToHost(hostAddr, req) case ASK: askingReq := newSimpleRequest(newArray( *newBulkString(ASKING), )) u.MakeRequestToHost(hostAddr, askingReq) u.MakeRequestToHost(hostAddr, req) default: req.SetResponse(resp) return }",
+      "switch strings.ToLower(err[0]) { case MOVED: u.stats.Counter(\"moved\").Inc() u.MakeRequestToHost(hostAddr, req) case ASK: askingReq := newSimpleRequest(newArray( *newBulkString(ASKING), )) askingReq.abort = req.abort u.MakeRequestToHost(hostAddr, askingReq, req) default: req.SetResponse(resp) return }",
       "u.triggerSlotsRefresh()"] ∧
     Gen.Upstream.handleClusterDown =
       ["u.triggerSlotsRefresh()",
